@@ -29,7 +29,8 @@ def _harness_flags():
     # fixes/C08-9: do the learned factored models seed their engine?
     try:
         cm = re.sub(r'\s+', '', open(os.path.join(os.environ.get('AITB_REPO', '/repo'), 'src/Factored/MDP/CooperativeMaximumLikelihoodModel.cpp')).read())
-        if re.search(r'CooperativeMaximumLikelihoodModel::CooperativeMaximumLikelihoodModel\([^{]*rand_\(Seeder::getSeed\(\)\)[^{]*\{', cm):
+        # (the initialiser list itself contains braces: `transitions_({experience_.getGraph(), {}})`)
+        if re.search(r'CooperativeMaximumLikelihoodModel::CooperativeMaximumLikelihoodModel\([^)]*\):[^;]*?rand_\(Seeder::getSeed\(\)\)\{setDiscount', cm):
             flags.append('-DC08_FACTORED_LEARNED_SEEDED=true')
     except OSError:
         pass
